@@ -759,8 +759,21 @@ def check_c14(tier, seed):
             shp = L1.shape
             seeds = [("scalar", 2.5), ("array", rng.uniform(1, 2, size=shp)), ("tensor", mg.tensor(rng.uniform(1, 2, size=shp))), ("int-array", np.full(shp, 2))]
             if len(shp) >= 1:
-                seeds.append(("broadcast", rng.uniform(1, 2, size=shp[-1:])))
-                seeds.append(("broadcast-1", rng.uniform(1, 2, size=(1,) * len(shp))))
+                # every shape that broadcasts TO shp: each subset of axes collapsed to 1, and leading axes dropped
+                seen_shapes = set()
+                for mask_ in itertools.product([False, True], repeat=len(shp)):
+                    full = tuple(1 if m_ else s_ for m_, s_ in zip(mask_, shp))
+                    for drop in range(len(shp) + 1):
+                        cand = full[drop:]
+                        if all(full[i_] == 1 or True for i_ in range(drop)) and cand != shp and cand not in seen_shapes:
+                            if all(m_ or True for m_ in mask_[:drop]):
+                                try:
+                                    if np.broadcast_shapes(cand, shp) != shp:
+                                        continue
+                                except ValueError:
+                                    continue
+                                seen_shapes.add(cand)
+                                seeds.append((f"broadcast{list(cand)}", rng.uniform(1, 2, size=cand)))
             for sk, g in seeds:
                 d2 = dict(desc, seed=sk)
                 try:
